@@ -26,6 +26,9 @@ type Env struct {
 	cells map[string]*Val
 	// frame of the enclosing function while evaluating inside old(): only for expressions whose TYPE is all that matters
 	typeFr *Frame
+	// outer: clauses of a "loop N of F" block — names that are not locals of the inlined frame env.fr resolve in the
+	// enclosing frames of the inline chain (innermost first)
+	outer bool
 }
 
 func (env *Env) with(st *State) *Env {
@@ -515,9 +518,20 @@ func (env *Env) goObject(o types.Object) (*Val, error) {
 	return nil, fmt.Errorf("cannot use %s in a specification", o.Name())
 }
 
-// lookupSSA resolves a source-level variable name inside env.fr.
+// lookupSSA resolves a source-level variable name inside env.fr (and, for env.outer, the frames it is inlined into).
 func (env *Env) lookupSSA(name string) *Val {
-	fr := env.fr
+	if v := env.lookupSSAIn(env.fr, name); v != nil || !env.outer {
+		return v
+	}
+	for f := env.fr.parent; f != nil; f = f.parent {
+		if v := env.lookupSSAIn(f, name); v != nil {
+			return v
+		}
+	}
+	return nil
+}
+
+func (env *Env) lookupSSAIn(fr *Frame, name string) *Val {
 	e := env.e
 	for _, p := range fr.fn.Params {
 		if p.Name() == name {
@@ -1929,6 +1943,16 @@ func (e *Enc) contentOf(st *State, v *Val) (*Val, error) {
 func selectPatterns(body string, vars []string) []string {
 	seen := map[string]bool{}
 	var out []string
+	// variables bound by quantifiers NESTED in the body (a symbol in head position of a list is a binder: `(|q!m!7| Int)`):
+	// a term that mentions one of them is not in scope of the quantifier the patterns are selected for
+	var innerBound []string
+	for i := 0; i+4 < len(body); i++ {
+		if body[i] == '(' && body[i+1] == '|' && strings.HasPrefix(body[i+2:], "q!") {
+			if j := strings.IndexByte(body[i+2:], '|'); j > 0 {
+				innerBound = append(innerBound, body[i+1:i+2+j+1])
+			}
+		}
+	}
 	// positions of "(select "
 	for i := 0; i+8 <= len(body); i++ {
 		if body[i:i+8] != "(select " {
@@ -2008,6 +2032,15 @@ func selectPatterns(body string, vars []string) []string {
 			}
 		}
 		if inner || seen[t] || strings.Contains(t, "(ite ") || strings.Contains(t, "(forall ") || strings.Contains(t, "(exists ") {
+			continue
+		}
+		outOfScope := false
+		for _, w := range innerBound {
+			if strings.Contains(t, w) {
+				outOfScope = true
+			}
+		}
+		if outOfScope {
 			continue
 		}
 		seen[t] = true
